@@ -120,10 +120,27 @@ def max_record_case(rng, P, pad):
     return conn_case(rng.choice([70000, 131072]), 1, segs, scripts, [], [], rng.choice([0, 1])), ["conn", "k2", "max-record-unread"]
 
 
+def close_after_half_flush_case(rng):
+    """the request's own reply flushing meets close(): a management reply is only PARTLY accepted by the transport (k of its bytes,
+    then Pending), the handler abandons that read and returns; Request::close must complete the half-sent record before it writes
+    anything else - at every cut position k"""
+    rid = rng.choice([1, 300])
+    q = record(GETVALUES, 0, nv_all([(b"FCGI_MPXS_CONNS", b""), (b"FCGI_MAX_REQS", b"")][:rng.choice([1, 2])]), rng.choice([0, 3]))
+    unk = record(rng.choice([12, 99]), 0, [1, 2, 3], 0)
+    w = flat(minimal_preamble(rid, 1, flags=rng.choice([0, 1]))) + rng.choice([q, unk, q + unk]) + record(STDIN, rid, [5, 6, 7], 0) + record(STDIN, rid, [], 0)
+    k = rng.randrange(1, 16)
+    ws = [k, 0] + rng.choice([[10 ** 6] * 20, [1, 0, 3, 10 ** 6, 10 ** 6, 10 ** 6, 10 ** 6, 10 ** 6], [0, 0, 10 ** 6] * 6])
+    h = [("poll1", rng.choice([1, 8, 64]))] + rng.choice([[], [("poll1", 8)]]) + [("ret", 0, rng.choice([0, 3]))]
+    return conn_case(rng.choice([64, 256, 8192]), 1, [(0, 0, w)], [h], [10 ** 6] * 5, ws, rng.choice([0, 1])), ["conn", "k1", "wscript", "close-after-half-flush"]
+
+
+
 def gen_cases(rng, tier):
     quick = tier == "quick"
     for _ in range(900 if quick else 60000):
         yield one(rng)
+    for _ in range(40 if quick else 2000):
+        yield close_after_half_flush_case(rng)
     for (P, pad) in ((65535, 1), (65535, 0), (65534, 2), (65530, 255), (65281, 255)):
         yield max_record_case(rng, P, pad)
     for _ in range(8 if quick else 300):
@@ -138,7 +155,7 @@ def nontrivial(line, tags):
 
 
 def min_classes(tier):
-    return {"k2": 100, "k3": 100, "k4": 100, "rscript": 300, "wscript": 300, "vectored": 200, "first-slice": 200, "big-write": 3, "long-record-early-return": 8, "max-record-unread": 5}
+    return {"k2": 100, "k3": 100, "k4": 100, "rscript": 300, "wscript": 300, "vectored": 200, "first-slice": 200, "big-write": 3, "long-record-early-return": 8, "max-record-unread": 5, "close-after-half-flush": 40}
 
 
 # ---------------------------------------------------------------------------------------------
